@@ -2,6 +2,8 @@ import RsModel.Model.Stream
 import RsModel.Lemmas.AttrSM
 import RsModel.Lemmas.ModeLeaves
 import RsModel.Lemmas.LinesSM
+import RsModel.Lemmas.SMNames
+import RsModel.Lemmas.AttrConcat
 /-!
 # C08 — a SourceMapSource reproduces the attribution of the map it was given
 (declared tables and `sourceRoot` handling; the splitter attribution itself is tied by correspondence)
@@ -114,5 +116,33 @@ theorem c08_lines (t : Text) (sm : SMap) (final : Bool) (hs : sortedFrom 1 0 (de
 theorem c08_lines_no_names (t : Text) (sm : SMap) (final : Bool) :
     ∀ m ∈ chunkMs (streamSM t sm ⟨false, final⟩).evs, ∀ o, m.orig = some o → o.name = none :=
   smLines_noNames t sm final
+
+
+/-! ## name level, and through an enclosing ConcatSource -/
+
+/-- **C08 at name level** (columns = true, normal mode): every byte of the stream of a SourceMapSource resolves — through the
+sources and names the stream itself announces — to the file name with `sourceRoot` applied, the file's content, the original line
+and column and the name that looking the byte's position up in `M` and resolving the indices through `M`'s own tables gives -/
+theorem c08_names (t : Text) (sm : SMap) (ha : IsAscii t) (hl : t.length ≤ USIZE_MAX) (hsorted : sortedFrom 1 0 (decode sm.mappings))
+    (hseg : ∀ m ∈ decode sm.mappings, SegOK (splitLines t) (adv startPos t).line (adv startPos t).col m) (hidx : MapIdxOK sm) :
+    attrN emptyS emptyN (streamSM t sm ⟨true, false⟩).evs = (attrFrom (decode sm.mappings) startPos t).map (Option.map (resolveSM sm)) :=
+  streamSM_attrN t sm ha hl hsorted hseg hidx
+
+/-- **… and through an enclosing ConcatSource**: in the stream of a ConcatSource whose children are `pre`, the SourceMapSource,
+and `post` (any streams, each announcing before use, one content per file name), the bytes contributed by the SourceMapSource are
+attributed — file name, content, line, column, name — exactly as looking their positions up in `M` gives, and the bytes of the
+other children as those children attribute them.  (C06 ∘ `c08_names`; `map()` of the ConcatSource then resolves them alike: C03,
+`getMap_names`.) -/
+theorem c08_through_concat (cons : Text → Option Text) (pre post : List SResult) (t : Text) (sm : SMap)
+    (ha : IsAscii t) (hl : t.length ≤ USIZE_MAX) (hsorted : sortedFrom 1 0 (decode sm.mappings))
+    (hseg : ∀ m ∈ decode sm.mappings, SegOK (splitLines t) (adv startPos t).line (adv startPos t).col m) (hidx : MapIdxOK sm)
+    (hwd : ∀ c ∈ pre ++ [streamSM t sm ⟨true, false⟩] ++ post, WellDecl cons emptyS emptyN c.evs ∧ evsTL c.evs = false) :
+    attrN emptyS emptyN (concatStream false (pre ++ [streamSM t sm ⟨true, false⟩] ++ post)).evs
+      = (pre.map fun c => attrN emptyS emptyN c.evs).flatten
+        ++ (attrFrom (decode sm.mappings) startPos t).map (Option.map (resolveSM sm))
+        ++ (post.map fun c => attrN emptyS emptyN c.evs).flatten := by
+  rw [concatStream_attrN cons _ hwd]
+  simp only [List.map_append, List.map_cons, List.map_nil, List.flatten_append, List.flatten_cons, List.flatten_nil, List.append_nil]
+  rw [streamSM_attrN t sm ha hl hsorted hseg hidx]
 
 end Rs
